@@ -494,7 +494,9 @@ fn anf<'a>(
             let op_copy = op;
             // Go evaluates operators on literals at compile time, exactly, and rejects results
             // that do not fit ("constant -1 overflows uint8"): keep such operands in variables.
-            let name_operand = matches!(op, common_defs::UnaryOp::Neg) && is_unsigned_literal(&expr);
+            // A constant has no negative zero either ("-0.0" is the constant 0): negate a variable.
+            let name_operand = matches!(op, common_defs::UnaryOp::Neg)
+                && (is_unsigned_literal(&expr) || is_float_zero_literal(&expr));
             anf_operand(
                 name_operand,
                 anfenv,
@@ -672,6 +674,20 @@ fn is_unsigned_literal(e: &LiftExpr) -> bool {
             ..
         }
     )
+}
+
+fn is_float_zero_literal(e: &LiftExpr) -> bool {
+    match e {
+        LiftExpr::EPrim {
+            value: Prim::Float32 { value },
+            ..
+        } => *value == 0.0,
+        LiftExpr::EPrim {
+            value: Prim::Float64 { value },
+            ..
+        } => *value == 0.0,
+        _ => false,
+    }
 }
 
 fn is_integer_zero_literal(e: &LiftExpr) -> bool {
